@@ -57,6 +57,8 @@ def check_values(ctx, component, items):
     n = 0
     for (ln, ok_calls, h), d in zip(todo, dec):
         n += 1
+        if oracle_silent(ctx, component, ln, d):
+            continue
         try:
             batches = iongen.forest_of_calls(ok_calls)
         except iongen.Malformed as e:
